@@ -1213,6 +1213,12 @@ func (e *Env) call(x *ECall) *SV {
 		c.uses["str"] = true
 		c.declareFun("ext.strings.TrimSpace", []string{"String"}, "String")
 		return &SV{S: "(ext.strings.TrimSpace " + arg(0).S + ")", T: types.Typ[types.String]}
+	case "callcount":
+		// callcount("F"): calls of F so far (needs "opt: count-calls=F")
+		if v, ok := e.st.ghost["lockn.calls."+typeArgName(x.Args[0])]; ok {
+			return e.intSV(v)
+		}
+		return e.intSV("0")
 	case "lockheld", "lockwheld", "lockepoch", "lockepochAt":
 		// lock bookkeeping of functions with a lock-order option (see lockOrder)
 		get := func(k, def string) string {
